@@ -4,6 +4,7 @@ CONSTANTS
   SmallMaxN = 0
   SmallVersions <- NoV
   VSels <- AllVSels
+  Slim = FALSE
   Variants <- AllVariants
 SPECIFICATION Spec
 CHECK_DEADLOCK FALSE
